@@ -401,7 +401,7 @@ func checkC07(c *Ctx) error {
 		{id: "fixed:return-ref-param", class: "accept", src: "import \"std/io\";\n\nfn pass(x: &i32) -> &i32 {\n    return x;\n}\n\nfn main() {\n    let a := 10;\n    let r := pass(&a);\n    io::Println(r);\n}\n"},
 	}
 	// derived references: a reference returned by a function from a reference argument keeps the
-	// loan of its origin alive (pinned probes of the open finding kf-C07-derived)
+	// loan of its origin alive (regression probes of the fixed finding kf-C07-derived)
 	fixed = append(fixed,
 		cse{id: "probe:derived-ref-from-call", class: "reject", why: "m = idm(&'a) is a mutable reference to a; a = 5 while m is used later", src: "import \"std/io\";\n\nfn idm(x: &'i32) -> &'i32 {\n    return x;\n}\n\nfn main() {\n    let a := 10;\n    let m := idm(&'a);\n    a = 5;\n    m = 2;\n    io::Println(a);\n}\n"},
 		cse{id: "probe:derived-field-ref-from-call", class: "reject", why: "m = fieldOf(&'p) refers to p.A; p.A = 7 while m is used later", src: "import \"std/io\";\n\ntype Pair struct { .A: i32, .B: i32 };\n\nfn fieldOf(p: &'Pair) -> &'i32 {\n    return &'p.A;\n}\n\nfn main() {\n    let p: Pair = { .A = 1, .B = 2 };\n    let m := fieldOf(&'p);\n    p.A = 7;\n    m = 3;\n    io::Println(p.A);\n}\n"},
@@ -452,6 +452,13 @@ func checkC07(c *Ctx) error {
 			}
 		}
 	}
+	// open finding kf-C07-derived-indirect: references derived through a reference variable, the second
+	// argument, or a closure capture
+	fixed = append(fixed,
+		cse{id: "probe:derived-ref-through-a-reference-variable", class: "reject", why: "n = idm(m) still refers to a; a = 5 while n is used later", src: "import \"std/io\";\n\nfn idm(x: &'i32) -> &'i32 {\n    return x;\n}\n\nfn main() {\n    let a := 10;\n    let m := idm(&'a);\n    let n := idm(m);\n    a = 5;\n    n = 2;\n    io::Println(a);\n}\n"},
+		cse{id: "probe:derived-ref-from-second-argument", class: "reject", why: "m = second(&'a, &'b) refers to b; b = 5 while m is used later", src: "import \"std/io\";\n\nfn second(x: &'i32, y: &'i32) -> &'i32 {\n    return y;\n}\n\nfn main() {\n    let a := 10;\n    let b := 20;\n    let m := second(&'a, &'b);\n    b = 5;\n    m = 1;\n    io::Println(b);\n}\n"},
+		cse{id: "probe:reference-captured-by-closure", class: "reject", why: "the closure holds m (a mutable reference to a) and is called after a = 5", src: "import \"std/io\";\n\nfn main() {\n    let a := 10;\n    let m: &'i32 = &'a;\n    let f := fn() -> i32 {\n        m = 7;\n        return 1;\n    };\n    a = 5;\n    let k := f();\n    io::Println(a);\n}\n"},
+	)
 	// write-through with implicitly widened values: accepted and compared with the interpreter
 	if wt := mxWriteThrough(); wt != nil {
 		fixed = append(fixed, cse{id: "fixed:write-through-widths", class: "accept", prog: wt, src: wt.Source()})
